@@ -335,3 +335,70 @@ def oracle_sweep(case, ctx):
 CHECKS.append(Check('coordinate_sweep', oracle_sweep, enumerate=enum_sweep, shards={'quick': 16, 'thorough': 16}, exhaustive=True,
                     rule='worlds of 2 x L and L x 2 cells (L = 1030, 1100; thorough also 2050, 2100, 4100) with a sparse wall pattern: the agent on every free cell x 4 headings x forward/left move, in place',
                     required=['length:1030', 'length:1100']))
+
+
+# ------------------------------------------------------------------ user-defined types whose instances differ in whether they block
+
+
+_GATES = [0]
+
+
+def _gate_init(self, lowered=False):
+    if lowered:
+        self.blocks_movement = False
+
+
+def make_gate():
+    """fresh class per case (importable by name, so that copies through pickle work): `blocks_movement` is set per instance over a
+    class-level default (the idiom the library uses for colours)"""
+    from gym_gridverse import grid_object as go
+    _GATES[0] += 1
+    name = f'VerifGate{_GATES[0]}'
+    cls = type(name, (go.GridObject,), {
+        'state_index': 0, 'color': go.Color.NONE, 'blocks_movement': True, 'blocks_vision': False, 'holdable': False, '__init__': _gate_init,
+        'can_be_represented_in_state': classmethod(lambda c: False), 'num_states': classmethod(lambda c: 1), '__module__': __name__, '__qualname__': name})
+    globals()[name] = cls
+    return cls
+
+
+def enum_gate(tier, shard, nshards):
+    i = 0
+    for first_lowered in (True, False):
+        for hd in HEADINGS:
+            for via in ('in_place', 'copy'):
+                i += 1
+                if i % nshards == shard:
+                    yield {'first_lowered': first_lowered, 'heading': hd, 'via': via}
+
+
+def oracle_gate(case, ctx):
+    """the agent walks towards a gate of one kind, then (elsewhere) towards a gate of the other kind: it enters exactly the lowered ones.
+    Whatever the library remembers about a *class* must not be taken from the first instance it met."""
+    from gym_gridverse.agent import Agent
+    from gym_gridverse.geometry import Position
+    from gym_gridverse.grid import Grid
+    from gym_gridverse.state import State
+    Gate = make_gate()
+    hd = case['heading']
+    move = REG['move_agent']
+    for k, lowered in enumerate([case['first_lowered'], not case['first_lowered'], case['first_lowered']]):
+        grid = Grid.from_shape((3, 3))
+        f = (1 + M.FWD[hd][0], 1 + M.FWD[hd][1])
+        grid[Position(*f)] = Gate(lowered)
+        s = State(grid, Agent(Position(1, 1), objs.ori(hd), None))
+        if case['via'] == 'copy':
+            n = guarded(ctx, 'transition_with_copy', transition_with_copy, move, s, objs.action('MOVE_FORWARD'), rng=make_rng(0))
+        else:
+            guarded(ctx, 'move_agent', move, s, objs.action('MOVE_FORWARD'))
+            n = s
+        got = (n.agent.position.y, n.agent.position.x)
+        exp = f if lowered else (1, 1)
+        if got != exp:
+            ctx.fail(f'MOVE_FORWARD heading {hd} towards a {"lowered (free)" if lowered else "raised (blocking)"} gate of a user-defined type (instance number {k + 1} of its class met in this case): '
+                     f'agent at {got}, expected {exp}', {'kind': 'kinematics', 'aspect': 'per_instance_blocking'})
+    ctx.ev.case(case, nt=True, classes=['first_gate:' + ('lowered' if case['first_lowered'] else 'raised')])
+
+
+CHECKS.append(Check('custom_blocking', oracle_gate, enumerate=enum_gate, shards={'quick': 4, 'thorough': 4}, exhaustive=True,
+                    rule='a user-defined type whose instances set blocks_movement individually: free / blocking / free and blocking / free / blocking instances met in turn x 4 headings, in place and through the copy',
+                    required=['first_gate:lowered', 'first_gate:raised']))
